@@ -185,6 +185,8 @@ def micro : α := 1.0e-6
 def nano : α := 1.0e-9
 /-- `PICO * M / V` with `V = 1000` in the gram-based UCUM system -/
 def pmPerVolt : α := 1.0e-12 / 1000.0
+/-- `v * PICO * M / V` as the code evaluates it: `(v · 1e-12) / 1000` -/
+def toDeff (v : α) : α := v * 1.0e-12 / 1000.0
 /-- `TWO_PI` -/
 def twoPi : α := 2.0 * Transc.pi
 /-- `TWO_PI * RAD * C_` -/
@@ -393,7 +395,7 @@ def tryAsSpdcG (guard : Bool) (cfg : Config α) (ext : Ext α) : Outcome (Setup 
         pumpAveragePower := cfg.pump.averagePowerMw * 1.0,
         pumpSpectrumThreshold := cfg.pump.spectrumThreshold.getD 1.0e-2, pp := pp,
         signalWaistPos := swp, idlerWaistPos := iwp,
-        deff := cfg.deffPmPerVolt * pmPerVolt }
+        deff := toDeff cfg.deffPmPerVolt }
 
 /-- `SPDCConfig::default()` (KTP is crystal 1 of the META table) -/
 def defaultConfig : Config α :=
